@@ -508,7 +508,9 @@ InPlace(st, t, newc, srcs, oldIsInput) ==
       missedH == {x \in fam : \E m \in DOMAIN st.N : st.N[m].cr /\
                     \E i \in 1..Len(st.N[m].par) : st.N[m].par[i] = st.H[x].node /\ st.N[st.N[m].par[i]].clrAt > st.N[m].born}
       silent == missedH # {} /\ (const \/ Cardinality(fam) > 1 \/ missedH \cap st.pend # {})
-      st0 == [NullOnUse(st, OpHandles(srcs) \ fam) EXCEPT !.kf = IF silent THEN @ \cup {"F-C09-1"} ELSE @,
+      \* (a pending tensor used as an operand of this update acquires a consumer again: silent from now on, as in MkResultL)
+      st0 == [NullOnUse(st, OpHandles(srcs) \ fam) EXCEPT !.kf = IF silent \/ OpHandles(srcs) \cap st.pend # {}
+                                                                  THEN @ \cup {"F-C09-1"} ELSE @,
                                                            !.pend = @ \cup missedH]
       st1 == [NewBuf(st0, raw, const) EXCEPT !.g[r] = None]
       nb == Len(st1.mem)
@@ -653,17 +655,22 @@ SeedCells(st, s) ==
 Adjoint(st, tot, h) ==     \* stored per cell of the owner's buffer
   LET b == st.H[h].buf IN [c \in 1..Len(st.mem[b]) |-> TGet(tot, st.pv[b][c])]
 
+\* a backward through a graph part of which was cleared AFTER it was recorded may raise InvalidBackprop (C09)
+PartialClear(st, L) ==
+  \E m \in UpDiff(st, st.H[L].node) : st.N[m].cr /\ ~st.N[m].const /\
+     \E i \in 1..Len(st.N[m].par) : st.N[st.N[m].par[i]].clrAt > st.N[m].born
+
 \* the releasing traversal of backward() (it also walks through constants) reaches an operation recorded before one of
 \* its inputs was cleared: with a pending F-C09-1 consumer this is where the traversal crosses into the mutated tensor's
 \* NEW graph and clears it (no staleness guard on this path) - the known finding becomes manifest
-\* (only operations the GRADIENT traversal does not reach - behind a constant - count: where the gradient traversal itself
-\*  meets such an operation MyGrad's staleness guard must raise InvalidBackprop, see PartialClear)
 CrossesMissed(st, n) ==
-  st.pend # {} /\ \E m \in UpAll(st, n) \ UpDiff(st, n) :
-                     st.N[m].cr /\ \E i \in 1..Len(st.N[m].par) : st.N[st.N[m].par[i]].clrAt > st.N[m].born
+  st.pend # {} /\ \E m \in UpAll(st, n) : st.N[m].cr /\ \E i \in 1..Len(st.N[m].par) : st.N[st.N[m].par[i]].clrAt > st.N[m].born
 ApplyBackward(st00, s) ==
   LET L == s.h lr == st00.H[L]
-      st == [st00 EXCEPT !.kf = IF st00.track /\ CrossesMissed(st00, lr.node) THEN @ \cup {"F-C09-1"} ELSE @] IN
+      \* (where the GRADIENT traversal itself meets an operation one of whose inputs was cleared after it was recorded,
+      \*  MyGrad's staleness guard must raise InvalidBackprop - PartialClear - and nothing is excused)
+      st == [st00 EXCEPT !.kf = IF st00.track /\ CrossesMissed(st00, lr.node) /\ ~PartialClear(st00, L)
+                                THEN @ \cup {"F-C09-1"} ELSE @] IN
   IF ~st.track THEN st        \* backward() does nothing while tracking is off
   ELSE IF lr.const THEN ClearNodes(st, UpAll(st, lr.node))
   ELSE
@@ -741,11 +748,6 @@ ApplySetShape(st, s) ==
 ApplyEnter(st, s) == IF s.m = "no_autodiff" THEN [st EXCEPT !.tsaved = Append(@, st.track), !.track = FALSE] ELSE st
 ApplyExit(st, s)  == IF s.m = "no_autodiff" THEN [st EXCEPT !.track = st.tsaved[Len(st.tsaved)], !.tsaved = SubSeq(@, 1, Len(@) - 1)]
                      ELSE st
-
-\* a backward through a graph part of which was cleared AFTER it was recorded may raise InvalidBackprop (C09)
-PartialClear(st, L) ==
-  \E m \in UpDiff(st, st.H[L].node) : st.N[m].cr /\ ~st.N[m].const /\
-     \E i \in 1..Len(st.N[m].par) : st.N[st.N[m].par[i]].clrAt > st.N[m].born
 
 ApplyRaw(st0, s) ==
   LET st == [st0 EXCEPT !.clk = @ + 1] IN
